@@ -165,10 +165,12 @@ impl<T> Array<T> {
         let shape = shape.into();
 
         // The product of the axis lengths may overflow for shapes read from untrusted input, in
-        // which case no data can match it
+        // which case no data can match it; a zero-length axis must not hide this, since the
+        // strides are products of the other axis lengths
         let elements = shape
             .iter()
-            .try_fold(1usize, |acc, &x| acc.checked_mul(x));
+            .try_fold(1usize, |acc, &x| acc.checked_mul(x.max(1)))
+            .map(|_| shape.iter().product::<usize>());
 
         if elements == Some(data.len()) {
             Ok(Array::new_unchecked(data, shape))
